@@ -174,6 +174,9 @@ PROPS = {
         "rule": "cases: (origin, k) run through all seven disk/ring functions; (origin) neighbour facts + predicate over the 2-ball, siblings and far cells; (3 origins, k) for gridDisksUnsafe. Non-trivial = k>0; "
                 "distinct by hash of (origin, k).",
         "require": {"disk.cases": 50000, "disk.with_pentagon": 2000, "pred.pairs": 500000, "pred.sibling_pairs": 100000, "unsafe.errors": 1000, "unsafe.successes": 10000, "disk.wrapping": 10, "ring.successes": 10000, "wrapring.origins": 500, "wrapring.radius_wraps_half_globe": 5000},
+        # every reachable cell of the neighbour-traversal tables must have been looked up (measured through the
+        # H3_VERIF_HOOKS observation points: column 0 = CENTER is never a traversal direction)
+        "require_tables": {"NEW_DIGIT_II@": 42, "NEW_DIGIT_III@": 42, "baseCellNeighbors@h3NeighborRotations": 732},
         "assumptions": ["geometric adjacency is the neighbour relation of the statement (validated by the tiling check of C08)"],
     },
     "C06": {
@@ -244,6 +247,11 @@ PROPS = {
                     "ij.neighbour_steps": 100000, "ij.extreme_rejected": 100, "mismatch.calls": 100},
         "exhaustive": True,
         "exhaustive_note": "all ordered pairs at res 0-1 (and res 2 in the thorough tier); balls elsewhere",
+        # all reachable cells of the five pentagon unfolding tables (FAILED_DIRECTIONS 6x6 over leading digits {0,2..6};
+        # PENTAGON_ROTATIONS = those minus the 10 failed directions; reverse tables: K row unreachable)
+        "require_tables": {"FAILED_DIRECTIONS@": 36, "PENTAGON_ROTATIONS@cellToLocalIjk": 26, "PENTAGON_ROTATIONS_REVERSE@": 42,
+                           "PENTAGON_ROTATIONS_REVERSE_POLAR@": 35, "PENTAGON_ROTATIONS_REVERSE_NONPOLAR@": 35,
+                           "baseCellNeighbor60CCWRots@cellToLocalIjk": 720, "baseCellNeighbor60CCWRots@localIjkToCell": 710},
         "assumptions": ["geometric adjacency is the neighbour relation of the statement (validated by C08)"],
     },
     "C10": {
@@ -368,15 +376,18 @@ PROPS = {
         "level": "fault_enumeration",
         "level_text": "For each input the call runs once unfaulted (allocation count N recorded, ledger must be empty on return, results compared with a default-allocator copy of the library in the same process) and then "
                       "2N more times, failing exactly the i-th allocation and failing the i-th and every later one, for every i <= N (cap 400): the call must return E_MEMORY_ALLOC, leave no live block and free nothing twice. "
-                      "Inputs: compactions with 1-5 rounds (+duplicate / reserved-bit error paths), gridDisk/gridDiskDistances and areNeighborCells over the 2-disks of all pentagons at all resolutions (fallback "
-                      "allocations) and random cells, legacy and experimental polygon fills (0-3 holes, four modes, bad flags, too-small capacity) incl. polygons around pentagons, maxPolygonToCellsSizeExperimental. ASan+UBSan.",
+                      "Inputs: compactions with 1-5 rounds (+ error paths: duplicate, reserved bits, digit 7, ancestor among the cells, hostile index, H3_NULL), gridDisk/gridDiskDistances and areNeighborCells over the "
+                      "2-disks of all pentagons at all resolutions (fallback allocations), random cells, and hostile origins/pairs (bit flips, wrong mode, digit 7 inside the resolution, deleted pentagon sub-sequence, "
+                      "base cell >= 122, k in -2..4) whose error is raised inside the fallback; legacy and experimental polygon fills (0-3 holes, four modes, bad flags, too-small capacity) incl. polygons around "
+                      "pentagons, maxPolygonToCellsSizeExperimental, and failing polygons (resolution out of range, NaN/inf/1e300 vertices in loop or hole, loops and holes of 0-2 vertices). ASan+UBSan.",
         "level_note": "Complete over allocation indexes of every executed call; the inputs are sampled. The ledger interposes through the library's own H3_ALLOC_PREFIX mechanism; allocations inside libc are not faulted.",
         "technique": "runtime fault injection: allocator ledger with exhaustive failure-index enumeration per call, differential run against the default allocator, under ASan/UBSan",
         "evaluations": ["calls", "faulted_runs"],
         "rule": "a case is one (call, failing allocation index, single|all-later) execution plus the unfaulted execution of each call. Non-trivial = a faulted run in which the injected failure was actually reached; "
                 "distinct by hash of (call description, index, mode).",
         "require": {"calls": 1000, "faulted_runs": 1500, "calls.compactCells": 50, "calls.gridDisk": 100, "calls.gridDiskDistances": 100, "calls.areNeighborCells": 300, "calls.polygonToCells": 50,
-                    "calls.polygonToCellsExperimental": 100, "calls.maxPolygonToCellsSizeExperimental": 100, "errorpath.compactCells": 5, "errorpath.polygonToCellsExperimental": 5},
+                    "calls.polygonToCellsExperimental": 100, "calls.maxPolygonToCellsSizeExperimental": 100, "errorpath.compactCells": 20, "errorpath.polygonToCellsExperimental": 30, "errorpath.gridDisk": 100, "errorpath.gridDiskDistances": 100, "errorpath.areNeighborCells": 500,
+                    "errorpath.maxPolygonToCellsSizeExperimental": 15, "errorpath.polygonToCells": 20, "hostile.cases": 300, "badpoly.cases": 30},
         "assumptions": ["every library allocation goes through H3_MEMORY (the prefix mechanism)", "the default-allocator copy is the same source tree compiled without the prefix"],
     },
     "C18": {
